@@ -209,8 +209,13 @@ class PeerConn:
             self.req = None
             self.pump()
 
-    def close(self):
-        self.w.send_fin(self.end)
+    def close(self, delay=0):
+        if getattr(self.w, 'rst_after_close', False) and len(self.buf) > 0 and not self.end.sent_fin and not delay:
+            # (linux profile) closing a socket that still holds unread data resets the connection instead of finishing it
+            self.w.fired('rst_close_unread')
+            self.w.send_rst(self.end)
+        else:
+            self.w.send_fin(self.end, extra_delay=delay)
         self.end.rx.closed_reader = True      # the peer's socket is gone: what still arrives for it is answered with a reset
 
     # -------------------------------------------------- sending with the fault layer
@@ -266,8 +271,7 @@ class PeerConn:
             atomic = tag in ('pre', 'banner', 'text')
             w.transmit(self.end, out, w.segment(out, atomic_lines=atomic), extra_delay=delay)
         if after == 'truncate_close':
-            w.send_fin(self.end, extra_delay=delay)
-            self.end.rx.closed_reader = True
+            self.close(delay)
             self.dead = True
         elif after == 'truncate_reset':
             w.send_rst(self.end, extra_delay=delay)
